@@ -18,8 +18,34 @@ for d in sorted(glob.glob(os.path.join(here, "seeded", "*"))):
     by = m.get("caught_by", "")
     rows.append("| %s | %s | %s | %s%s |" % (name, summ.replace("|", "/"), needs.replace("|", "/"), det, (" - " + by) if by else ""))
 table = "| change | what it does | what it needs to manifest | result of `./run.sh <ID> <tier>` against the changed tree |\n|---|---|---|---|\n" + "\n".join(rows) + "\n"
+# per-round summary
+FLAVOURS = {1: "free choice of a realistic breaking change", 2: "changes that need something specific to manifest",
+            7: "the corners of the stated scope", 8: "pairwise combinations of input features", 9: "defects that need two operations composed",
+            10: "maintenance refactors and performance optimisations",
+            11: "schedule-dependent defects (C08, C09, C13, C20); the border between accepted and rejected inputs (others)", 12: "calls that do not come back (loops, deadlocks, blow-ups)",
+            13: "real-world constructs of the file formats (parsers); defects that are intermittent for one and the same input (others)", 14: "results that satisfy a weaker reading of a clause (strength of the oracle)",
+            15: "needle triggers: conjunctions of three conditions, dependent fields, mid-range magnitudes"}
+for _k in (3, 4, 5, 6):
+    FLAVOURS[_k] = "as round 2, with changing emphasis: state kept between calls (caches, pools), block and buffer sizes, less-travelled entry points, the clauses a harness is least likely to exercise"
+per = {}
+for d in glob.glob(os.path.join(here, "seeded", "*")):
+    m = json.load(open(os.path.join(d, "meta.json")))
+    k = int(re.search(r"-m(\d+)$", os.path.basename(d)).group(1))
+    rnd = (k + 1) // 2
+    t = per.setdefault(rnd, [0, 0])
+    t[0] += 1
+    if m.get("strengthened"):
+        t[1] += 1
+rt = "| round | what the sub-agents were asked for | changes kept | of these missed by the check as it was (then strengthened) |\n|---|---|---|---|\n"
+for rnd in sorted(per):
+    rt += "| %d | %s | %d | %d |\n" % (rnd, FLAVOURS.get(rnd, ""), per[rnd][0], per[rnd][1])
+rt += "| all | | %d | %d |\n" % (sum(v[0] for v in per.values()), sum(v[1] for v in per.values()))
 p = os.path.join(here, "DESIGN.md")
 s = open(p).read()
+rb, re_ = "<!-- seeded-rounds-begin -->\n", "<!-- seeded-rounds-end -->"
+if rb in s:
+    i, j = s.index(rb) + len(rb), s.index(re_)
+    s = s[:i] + rt + s[j:]
 b, e = "<!-- seeded-table-begin -->\n", "<!-- seeded-table-end -->"
 i, j = s.index(b) + len(b), s.index(e)
 open(p, "w").write(s[:i] + table + s[j:])
